@@ -925,8 +925,8 @@ func (g *graph) toGraphInfo(opt *graphCompileOptions, key2SubGraphs map[string]*
 				InputType:        gNode.cr.inputType,
 				OutputType:       gNode.cr.outputType,
 				Name:             gNode.nodeInfo.name,
-				InputKey:         gNode.cr.nodeInfo.inputKey,
-				OutputKey:        gNode.cr.nodeInfo.outputKey,
+				InputKey:         gNode.nodeInfo.inputKey,
+				OutputKey:        gNode.nodeInfo.outputKey,
 			}
 			continue
 		}
@@ -938,8 +938,8 @@ func (g *graph) toGraphInfo(opt *graphCompileOptions, key2SubGraphs map[string]*
 			InputType:        gNode.cr.inputType,
 			OutputType:       gNode.cr.outputType,
 			Name:             gNode.nodeInfo.name,
-			InputKey:         gNode.cr.nodeInfo.inputKey,
-			OutputKey:        gNode.cr.nodeInfo.outputKey,
+			InputKey:         gNode.nodeInfo.inputKey,
+			OutputKey:        gNode.nodeInfo.outputKey,
 			Mappings:         g.fieldMappingRecords[key],
 		}
 
